@@ -249,6 +249,12 @@ func checkC10(res *core.RunResult, s *uciSim, pc posCmd, kind string, w Wiring, 
 			res.Violate("C10", "history-differs", s.steps, "after %q (%s) a continuation (%s) gives %v/%v on the engine's board and %v/%v on a board set up from scratch: the history used for repetition detection differs", pc.text, kind, movesUCI(gm.Moves[len(pc.game.Moves):]), r1, b1.Result(), r2, b2.Result())
 			return false
 		}
+		// ... and against the game itself (an independent count of occurrences, the root of the command
+		// included): both boards come from the same code and would share a history that is wrong from the start
+		if want := gm.EverDrawn(); (b1.Result().Outcome == board.Draw) != want {
+			res.Violate("C10", "history-differs", s.steps, "after %q (%s) and the continuation %s the board reports %v; by the game the command describes a draw event (third occurrence, clock, material) has held at some node: %v. The history used for repetition detection is not the one the command describes", pc.text, kind, movesUCI(gm.Moves[len(pc.game.Moves):]), b1.Result(), want)
+			return false
+		}
 		if b1.Result().Outcome == board.Draw {
 			res.Probe("probe-continuation-reached-draw")
 		}
